@@ -33,7 +33,7 @@ Print Assumptions C09_failed_subscribe_releases.
 (* Integrated model Comp/Core.v (run in lock-step with the real gateway on every check), every sequence of stimuli and
    scheduler grants: the resource is requested from its service at most once, the event subscription is made at most once,
    and the get request is only ever sent after the event subscription was made. *)
-From RG Require Comp.Conv Comp.Core Proofs.CoreProofs.
+From RG Require Comp.Conv Comp.Core Proofs.CoreProofsABC Proofs.CoreProofsDEF.
 Theorem C09_core_get_once_under_subscription :
   forall (val upd : Type) (app : upd -> val -> val) (norm : upd -> val -> option upd) (d : val) t ops,
   let outs := snd (Core.exec val upd app norm d t ops) in
@@ -41,5 +41,5 @@ Theorem C09_core_get_once_under_subscription :
   (Core.count_out val upd (Core.is_mqsub val upd) outs <= 1)%nat /\
   forall pre o post, outs = pre ++ o :: post -> Core.is_getreq val upd o = true ->
     Core.count_out val upd (Core.is_mqsub val upd) pre = 1%nat.
-Proof. exact CoreProofs.core_get_once_under_subscription. Qed.
+Proof. exact CoreProofsABC.core_get_once_under_subscription. Qed.
 Print Assumptions C09_core_get_once_under_subscription.
